@@ -631,69 +631,105 @@ def _find_violations(pred, constraints, limit=50, stats=None):
                     changed = True
         cons = rel
     targets = ([pred] if isinstance(pred, Node) else []) + cons
-    cut, exact = base_cut(targets)
-    if grid_size(cut) > 200_000:
-        # cheap top-down attempts first: when the value was derived from the specification's own
-        # nodes a shallow frontier already proves the predicate
-        maxd = max(t.depth for t in targets)
-        tried = set()
-        for depth in range(maxd - 1, max(0, maxd - 9), -1):
-            fc = frontier(targets, depth)
-            key = tuple(sorted(c.id for c in fc))
-            if key in tried:
-                continue
-            tried.add(key)
-            fg = grid_size(fc)
-            if fg > 300_000:
-                break
-            try:
-                arrs = evaluate(targets, fc)
-            except TooBig:
-                break
-            bad = ~truth_array(pred, arrs[0]) if isinstance(pred, Node) else np.array(True)
-            for c, a in zip(cons, arrs[1:] if isinstance(pred, Node) else arrs):
-                bad = bad & truth_array(c, a)
-            if stats is not None:
-                stats["grids"] = stats.get("grids", 0) + 1
-                stats["points"] = stats.get("points", 0) + fg
-            if not bad.any():
-                return ("valid", {"grid": fg, "exact_cut": False, "cut": [c.name for c in fc]})
-        cut, exact = best_cut(targets, MAX_CUT_GRID)
-    g = grid_size(cut)
-    if g > MAX_CUT_GRID:
-        r = _factored(pred, cons, cut, exact, limit, stats)
-        return r if r is not None else ("toobig", {"grid": g})
-    try:
+
+    def run(cut):
         arrs = evaluate(targets, cut)
+        if isinstance(pred, Node):
+            bad = ~truth_array(pred, arrs[0])
+            rest = arrs[1:]
+        else:
+            bad = np.array(True)
+            rest = arrs
+        for c, a in zip(cons, rest):
+            bad = bad & truth_array(c, a)
+        if stats is not None:
+            stats["grids"] = stats.get("grids", 0) + 1
+            stats["points"] = stats.get("points", 0) + grid_size(cut)
+        return bad
+
+    def report(bad, cut, exact):
+        nd = len(cut)
+        if bad.ndim < nd:
+            bad = bad.reshape(bad.shape + (1,) * (nd - bad.ndim))
+        pts = np.argwhere(bad)
+        count = int(bad.sum())
+        free = 1
+        for k, c in enumerate(cut):
+            if bad.shape[k] == 1:
+                free *= len(c.values)
+        points = [{c: int(p[k]) for k, c in enumerate(cut)} for p in pts[:limit]]
+        return ("violations", cut, points, count * free, None, exact)
+
+    bcut, bexact = base_cut(targets)
+    bg = grid_size(bcut)
+    if bg <= 400_000:
+        # the exact cut is affordable: its verdict is definitive
+        try:
+            bad = run(bcut)
+            if not bad.any():
+                return ("valid", {"grid": bg, "exact_cut": bexact, "cut": [c.name for c in bcut]})
+            return report(bad, bcut, bexact)
+        except TooBig:
+            pass
+    # (1) shallow frontiers below the targets, cheap ones only
+    maxd = max(t.depth for t in targets)
+    tried = set()
+    last = None
+    fronts = []
+    for depth in range(maxd - 1, 0, -1):
+        fc = frontier(targets, depth)
+        key = tuple(sorted(c.id for c in fc))
+        if key in tried:
+            continue
+        tried.add(key)
+        fronts.append(fc)
+    for fc in fronts[:9]:
+        g = grid_size(fc)
+        if g > 300_000:
+            break
+        try:
+            bad = run(fc)
+        except (TooBig, KeyError):
+            break
+        if not bad.any():
+            return ("valid", {"grid": g, "exact_cut": False, "cut": [c.name for c in fc]})
+        last = (bad, fc, False)
+    # (2) the greedily contracted base cut
+    try:
+        gc, gexact = best_cut(targets, MAX_CUT_GRID)
     except TooBig:
-        r = _factored(pred, cons, cut, exact, limit, stats)
-        return r if r is not None else ("toobig", {"grid": g})
-    if isinstance(pred, Node):
-        bad = ~truth_array(pred, arrs[0])
-        rest = arrs[1:]
-    else:
-        bad = np.array(True)
-        rest = arrs
-    for c, a in zip(cons, rest):
-        bad = bad & truth_array(c, a)
-    if stats is not None:
-        stats["grids"] = stats.get("grids", 0) + 1
-        stats["points"] = stats.get("points", 0) + g
-    if not bad.any():
-        return ("valid", {"grid": g, "exact_cut": exact, "cut": [c.name for c in cut]})
-    nd = len(cut)
-    if bad.ndim < nd:
-        bad = bad.reshape(bad.shape + (1,) * (nd - bad.ndim))
-    pts = np.argwhere(bad)
-    count = int(bad.sum())
-    free = 1
-    for k, c in enumerate(cut):
-        if bad.shape[k] == 1:
-            free *= len(c.values)
-    points = []
-    for p in pts[:limit]:
-        points.append({c: int(p[k]) for k, c in enumerate(cut)})
-    return ("violations", cut, points, count * free, None, exact)
+        gc, gexact = None, False
+    if gc is not None and grid_size(gc) <= MAX_CUT_GRID:
+        try:
+            bad = run(gc)
+            if not bad.any():
+                return ("valid", {"grid": grid_size(gc), "exact_cut": gexact, "cut": [c.name for c in gc]})
+            if gexact:
+                return report(bad, gc, True)
+            last = (bad, gc, False)
+        except (TooBig, KeyError):
+            pass
+    # (3) the remaining frontiers, smallest first, within a budget
+    budget = 6_000_000
+    for fc in sorted(fronts[9:], key=grid_size):
+        g = grid_size(fc)
+        if g > 2_000_000 or g > budget:
+            break
+        budget -= g
+        try:
+            bad = run(fc)
+        except (TooBig, KeyError):
+            continue
+        if not bad.any():
+            return ("valid", {"grid": g, "exact_cut": False, "cut": [c.name for c in fc]})
+    # (4) factored evaluation when the contracted cut is too large as a full product
+    if gc is not None and grid_size(gc) > MAX_CUT_GRID:
+        r = _factored(pred, cons, gc, gexact, limit, stats)
+        if r is not None:
+            return r
+    if last is not None:
+        return report(*last)
+    return ("toobig", {"grid": grid_size(gc) if gc is not None else bg})
 
 
 def evaluate_points(targets, cut, idx):
@@ -768,7 +804,7 @@ def _factored(pred, cons, cut, exact, limit, stats):
             return ("valid", {"grid": 0, "note": "constraints unsatisfiable"})
         comp_points.append((members, pts))
         total *= len(pts)
-        if total > 40 * MAX_CUT_GRID:
+        if total > 5 * MAX_CUT_GRID:
             return None
     # cartesian product of the groups' feasible points, evaluated in chunks
     comp_points.sort(key=lambda t: -len(t[1]))
